@@ -30,7 +30,23 @@ fn kinds(s: &Value) -> String {
         v.truncate(8);
         v.push("...".into());
     }
-    format!("{},cut{}", v.join(","), s["cut"])
+    let hd = if s.get("hd").map(|h| h.is_object()).unwrap_or(false) {
+        let h = &s["hd"];
+        format!(
+            "hd[{}{}{}/{}/{}/{}/{}/pad{}],",
+            if h["magic"][0] == 105 && h["magic"][15] == 209 && h["magic"][1] == 157 && h["magic"][8] == 177 { "" } else { "badmagic/" },
+            if h["nul"] == true { "" } else { "nonul/" },
+            h["mal"].as_str().unwrap_or(""),
+            h["vtext"].as_str().unwrap_or(""),
+            h["ver"],
+            h["var"].as_str().unwrap_or(""),
+            h["num"].as_str().unwrap_or(""),
+            h["pad"]
+        )
+    } else {
+        String::new()
+    };
+    format!("{}{},cut{}", hd, v.join(","), s["cut"])
 }
 
 /// model positions -> real positions (the model's header is `hm` bytes long)
@@ -113,7 +129,17 @@ fn replay(args: &[String]) {
             Err(_) => continue,
         };
         cases += 1;
-        let s = &case["S"];
+        let mut s_owned = case["S"].clone();
+        let has_hd = s_owned.get("hd").map(|h| h.is_object()).unwrap_or(false);
+        if has_hd {
+            // the spec leaves the length of the rendered header text (and "header length - 1") to the harness
+            let hl = render_header(&s_owned["hd"]).len();
+            s_owned["hd"]["hl"] = json!(hl);
+            if s_owned["cut"] == 3 && s_owned["cl"].as_i64() == Some(-1) {
+                s_owned["cl"] = json!(hl - 1);
+            }
+        }
+        let s = &s_owned;
         let items: Vec<Value> = s["items"].as_array().cloned().unwrap_or_default();
         let enc = encode_stream(s);
         let want_ev = canon(&case["ev"]);
@@ -129,6 +155,19 @@ fn replay(args: &[String]) {
         let mut frags: Vec<Frag> = Vec::new();
         if !sched.is_empty() {
             frags.push(Frag::Sizes(real_sizes(&sched, hm, enc.hlen)));
+        } else if has_hd {
+            // cuts around the magic, around the end of the header and around the 8 KiB buffer size
+            frags.push(Frag::Whole);
+            frags.push(Frag::Each(if enc.bytes.len() > 2000 { 7 } else { 1 }));
+            let mut rng = StdRng::seed_from_u64(seed ^ (cases.wrapping_mul(0x9e3779b97f4a7c15)));
+            frags.push(Frag::Sizes(random_sizes(&mut rng, enc.bytes.len())));
+            let hl = enc.hlen;
+            for at in [1usize, 15, 16, 17, hl.saturating_sub(2), hl.saturating_sub(1), hl, hl + 1, 8191, 8192, 8193] {
+                if at >= 1 && at < enc.bytes.len() {
+                    frags.push(Frag::Sizes(vec![at]));
+                    frags.push(Frag::Sizes(vec![at, 0, 1]));
+                }
+            }
         } else {
             frags.push(Frag::Whole);
             frags.push(Frag::Each(1));
@@ -139,12 +178,12 @@ fn replay(args: &[String]) {
         let mut results: Vec<Run> = Vec::new();
         let mut bad = false;
         for f in frags {
-            let run = run_reader(&enc.bytes, f, &items, 10 * items.len() + 20, 5000);
+            let run = run_reader_hd(&enc.bytes, f, &items, if has_hd { Some(&s["hd"]) } else { None }, 10 * items.len() + 20, 5000);
             runs += 1;
             if run.end == "panic" {
                 panics += 1;
             }
-            if canon(&Value::Array(run.outs.clone())) != want_ev || run.end != want_end {
+            if canon(&Value::Array(run.outs.clone())) != want_ev || run.end != want_end || !run.quiet_end {
                 bad = true;
                 mism_runs += 1;
             }
@@ -157,6 +196,8 @@ fn replay(args: &[String]) {
                 for (i, run) in results.iter().enumerate() {
                     write_run(&mut mis, s, enc.hlen, i > 0, run, false);
                 }
+                let mut case = case.clone();
+                case["S"] = s.clone();
                 mismatch_list.push(json!({"case": case, "kinds": kinds(s), "n": first_line,
                     "got": results.iter().map(|r| json!({"ev": r.outs, "end": r.end})).collect::<Vec<_>>()}));
             }
@@ -226,7 +267,15 @@ impl Gen {
             SUBS[self.rng.gen_range(0..n)]
         };
         let sh = shape(sub);
-        let c = if sh.contains('c') { self.cid() } else { 0 };
+        let live = |g: &mut Gen| -> Option<i32> {
+            if !g.alive.is_empty() && g.rng.gen_range(0..2) == 0 {
+                let i = g.rng.gen_range(0..g.alive.len());
+                Some(g.alive[i])
+            } else {
+                None
+            }
+        };
+        let c = if sh.contains('c') { live(self).unwrap_or_else(|| self.cid()) } else { 0 };
         let mut a = if sh.contains('s') || sh.contains('d') || sh.contains('r') {
             match self.rng.gen_range(0..6) {
                 0 => 0,
@@ -242,7 +291,8 @@ impl Gen {
         let b = if sub == "cc" {
             self.rng.gen_range(0..=16)
         } else if sh.contains('b') {
-            big(&mut self.rng)
+            // the second member may be a client id as well (PLAYER_SWAP)
+            live(self).unwrap_or_else(|| big(&mut self.rng))
         } else {
             0
         };
@@ -661,6 +711,7 @@ fn case(args: &[String]) {
         }
     } else {
         let s = &c["S"];
+        let has_hd = s.get("hd").map(|h| h.is_object()).unwrap_or(false);
         let enc = encode_stream(s);
         let items: Vec<Value> = s["items"].as_array().cloned().unwrap_or_default();
         let sched: Vec<usize> = c["sched"].as_array().map(|a| a.iter().map(|x| x.as_u64().unwrap_or(0) as usize).collect()).unwrap_or_default();
@@ -671,9 +722,16 @@ fn case(args: &[String]) {
         }
         frags.push(Frag::Whole);
         frags.push(Frag::Each(1));
+        if has_hd {
+            for at in [16usize, enc.hlen.saturating_sub(1), enc.hlen, 8192] {
+                if at >= 1 && at < enc.bytes.len() {
+                    frags.push(Frag::Sizes(vec![at]));
+                }
+            }
+        }
         let mut first = true;
         for f in frags {
-            let run = run_reader(&enc.bytes, f, &items, 10 * items.len() + 50, 20000);
+            let run = run_reader_hd(&enc.bytes, f, &items, if has_hd { Some(&s["hd"]) } else { None }, 10 * items.len() + 50, 20000);
             write_run(&mut w, s, enc.hlen, !first, &run, false);
             first = false;
         }
